@@ -85,6 +85,8 @@ func main() {
 	}
 	// the interpreter allocates heavily and memory is plentiful: collect less often
 	debug.SetGCPercent(1000)
+	// collect harder once the heap is large (long explorations keep little live data)
+	debug.SetMemoryLimit(12 << 30)
 	switch os.Args[1] {
 	case "run":
 		if p := os.Getenv("GOSMT_CPUPROFILE"); p != "" {
